@@ -491,7 +491,8 @@ func (t *Table) term(x Term) (m.Term, error) {
 			}
 			es = append(es, me)
 		}
-		return m.Term{K: m.KSet, Set: m.CanonSet(es)}, nil
+		// as on the wire: order and repeated elements are kept (Key() compares as a multiset)
+		return m.Term{K: m.KSet, Set: es}, nil
 	}
 	return m.Term{}, fmt.Errorf("unknown term kind %d", x.K)
 }
